@@ -16,6 +16,7 @@ import (
 	"sort"
 	"strconv"
 	"strings"
+	"time"
 
 	"github.com/influxdata/influxdb/v2/tsdb/engine/tsm1"
 	"verif/harness/h"
@@ -308,7 +309,7 @@ func (c *runner) crash(keys [][]byte, min, max int64, step int) string {
 			outs = append(outs, o)
 		}
 	}
-	state := func(tombstone []byte, hasTomb bool, tmp []byte, hasTmp bool, cleanup bool) string {
+	state := func(tombstone []byte, hasTomb bool, tmp []byte, hasTmp bool, cleanup bool, redelete bool) string {
 		c.nsub++
 		sub := filepath.Join(c.dir, fmt.Sprintf("crash%d", c.nsub))
 		if err := os.Mkdir(sub, 0777); err != nil {
@@ -342,7 +343,7 @@ func (c *runner) crash(keys [][]byte, min, max int64, step int) string {
 		// what the re-opened reader applied = what a fresh Walk of the file yields
 		w := c.walkFresh(p)
 		// and the reader must be usable for a further delete once the tmp file was cleaned up
-		if cleanup && r.KeyCount() > 0 {
+		if cleanup && redelete && r.KeyCount() > 0 {
 			k, _ := r.KeyAt(0)
 			mn, _ := r.TimeRange()
 			if err := r.DeleteRange([][]byte{append([]byte(nil), k...)}, mn, mn); err != nil {
@@ -368,11 +369,12 @@ func (c *runner) crash(keys [][]byte, min, max int64, step int) string {
 		}
 		sort.Ints(cs)
 		for i, cut := range cs {
-			add(state(fold, hadOld, fnew[:cut], true, i%2 == 0))
+			// a further delete (tmp create, fsync, rename) is tried on a few of the cleaned-up states only: it is slow
+			add(state(fold, hadOld, fnew[:cut], true, i%2 == 0, i == 0 || i == (len(cs)/4)*2 || i >= len(cs)-2))
 		}
-		add(state(fnew, true, nil, false, true))
+		add(state(fnew, true, nil, false, true, true))
 	} else {
-		add(state(fold, hadOld, nil, false, true))
+		add(state(fold, hadOld, nil, false, true, true))
 	}
 	return fmt.Sprintf("pfx=%s old=%s new=%s outs=%s", h.B(pfx), oldWalk, newWalk, strings.Join(outs, "|"))
 }
@@ -783,4 +785,6 @@ func (c *runner) tsOp(t []string) string {
 
 var _ = math.MaxInt64
 
-func main() { h.Main(h.Harness{Gen: gen, NewCase: newRunner}) }
+// a mutated reader may spin on a block it mis-locates: a short per-op timeout keeps the run bounded
+// (the op answers "timeout", which the statement checker reports as a failing input)
+func main() { h.Main(h.Harness{Gen: gen, NewCase: newRunner, OpTimeout: 20 * time.Second}) }
